@@ -23,7 +23,7 @@ CLAIMS = {
    technique="whole-program points-to / write-effect and retention analysis (custom Andersen over go/ssa)",
    text=("Decided for every input and layout: Unmarshal has no write effect on its argument's backing array and the array is "
          "not reachable from the receiver or any global at the points-to fixpoint; the slice Marshal returns points only to "
-         "memory allocated during the call and nothing is stored into the receiver; NewSlimTrie/NewSlimIndex have no write "
+         "memory allocated during the call (not taken from a sync.Pool) and nothing is stored into the receiver; NewSlimTrie/NewSlimIndex have no write "
          "effect on the caller's keys, values, option struct, the bools it points to, or the encoder, and nothing the caller can still write "
          "is in the contents closure of the returned trie (identity encoders of the analysed packages followed)."),
    design="4/C20"),
@@ -34,14 +34,15 @@ CLAIMS = {
          "children split carries no keep-mask/value/DedupValue label given the node's key range, is the value recorded as the node's "
          "prefix end, and the significant-bit index is built over the caller's whole key slice — the mechanism by which a de-duplicated "
          "key falls to its left neighbour; plus SlimIndex.RangeGet -> SlimTrie.RangeGet routing and one shared three-way descent. "
-         "Does not decide the three-way search itself (rank values at run time)."),
+         "The keep mask compares every adjacent pair of encoded values (values are not sorted); every record's bytes are the encoder's output for that "
+         "record, from an encoder whose results are independent. Does not decide the three-way search itself (rank values at run time)."),
    design="4/C02"),
  "C04": dict(
    technique="labelled flow (option witnesses) + CFG dominance/post-dominance gates + sibling-decoder agreement",
    text=("Decides the refusal clause (a nil test of a builder-computed witness of EACH prefix option panics before any traversal, for "
          "all three scan APIs), the every-value-encoder clause (scan value bytes are located only by the leaf array decoder Get uses; no "
          "GetEncodedSize(nil) fixed-width belief on read paths), the stop clause (false callback result ends ScanFrom; ScanFromTo's "
-         "wrapper returns false or the callback's result; the scan loop ends on a nil key, never on its length), delegation on every path and stickiness of exhaustion. Does not decide order/"
+         "wrapper returns false or the callback's result; the scan loop ends on a nil key, never on its length; the end-bound wrapper keeps no state across callbacks), delegation on every path and stickiness of exhaustion. Does not decide order/"
          "uniqueness/completeness of yielded keys or bound inclusivity (runtime rank values)."),
    design="4/C04"),
  "C13": dict(
@@ -50,7 +51,8 @@ CLAIMS = {
          "depends by data or control flow on option InnerPrefix, LeafPrefix or Complete, so all modes with equal DedupValue build the same "
          "trie shape and retained key set and prefix options only add payload. This is the mechanism and a necessary condition of "
          "monotonicity; on the guarded summary of the option normalisation every path on which Complete can be true ends with InnerPrefix and "
-         "LeafPrefix pointing to true and no flag left nil. It does not decide that the query side uses the payload only to reject."),
+         "LeafPrefix pointing to true and no flag left nil; no wire field of one prefix section depends on the other prefix option; stored prefixes are "
+         "decoded under their validity discriminators with a length that reads the marker byte. It does not decide that the query side uses the payload only to reject."),
    design="4/C13"),
  "C17": dict(
    technique="labelled information-flow analysis of the builder (key-material taint to wire fields and store events)",
@@ -58,7 +60,8 @@ CLAIMS = {
          "paths where option InnerPrefix or LeafPrefix is known true (must-condition from transitive control dependence), and reach only "
          "InnerPrefixes.Bytes / LeafPrefixes.Bytes; hence in filter mode nothing proportional to key length is stored; the element width of every "
          "per-node array outside the payload sections and the decision to build a per-node section at all carry no key-content label (the "
-         "documented empty-trie marker excepted). Does not decide the numeric bound of 8 bytes/key + 256."),
+         "documented empty-trie marker excepted); a node is made 257-bit only under a lower bound (> K, K >= 4) on its own child count; the build uses no "
+         "process-wide state. Does not decide the numeric bound of 8 bytes/key + 256 itself."),
    design="4/C17"),
 
  "C05": dict(
@@ -67,7 +70,8 @@ CLAIMS = {
          "no random/clock/goroutine/%p; no map in wire structs), the no-residue clause (for each of the compatible versions every "
          "non-configuration field of SlimTrie is stored on every success path of the version-specialised Unmarshal before any load that could "
          "observe its old value, derived fields computed after the last message write; Reset likewise), proto.Size = len(Marshal()) by method "
-         "set, that the stamped version is loadable without fix-up, and that every bitmap is read with the index kind it is built or loaded with. "
+         "set, that the stamped version is loadable without fix-up, that every bitmap is read with the index kind it is built or loaded with, that the "
+         "stream Marshal returns is fresh (not pooled, not kept) and that the build uses no process-wide state (sync.Pool, package-level variables). "
          "Does not decide that a loaded trie answers identically."),
    design="4/C05"),
  "C06": dict(
@@ -75,7 +79,8 @@ CLAIMS = {
    text=("Decides the dispatch for every version in the compatible list: the version-specialised Unmarshal has success paths and each performs "
          "exactly the loader family of that layout (three sections in order + rebuild + store + init / one Slim section + prefix re-encoding + leaf "
          "array reconstruction + init / one Slim section + init), fix-up functions identified by the wire fields they write and no other in-place rewrite "
-         "on a success path; loaders driven by constant tables are unrolled; legacy arrays are "
+         "on a success path; loaders driven by constant tables are unrolled; no bitmap word is trimmed in place with mask(n&63) unguarded; the legacy "
+         "loader never decides emptiness from the children array alone; legacy arrays are "
          "ranked over their own (Bitmaps, Offsets). Does not decide the conversions' arithmetic on arbitrary old streams."),
    design="4/C06"),
  "C07": dict(
@@ -110,7 +115,8 @@ CLAIMS = {
    text=("Decided for every array state and index: each typed Get has the same presence test and the same byte-offset polynomial as the "
          "generic Base.GetBytes with eltsize=Sizeof(elt), decodes with LittleEndian.UintN of that width, returns (0,false) when absent; "
          "InitIndex/Init cannot reach their sentinel-error return after a receiver store or a use of the list other than the validation, every "
-         "non-panicking path of Init carries the validation's success condition or returns the sentinel, and "
+         "non-panicking path of Init carries the validation's success condition or returns the sentinel, every element is encoded in a unit-step loop "
+         "over all elements and appended unconditionally (no goroutines), and "
          "constructors return nil with the error; every array type is exactly Base->Array32. Rank offsets' own correctness and the protobuf "
          "round trip are not decided."),
    design="4/C16"),
@@ -119,7 +125,8 @@ CLAIMS = {
    text=("Proves for every trie that each level record is built with leaf = total - inner (incl. the all-zero record), that Stat maps "
          "(total,inner,leaf)->(Total,Inner,Leaf) and takes NodeCnt/KeyCnt from the last record (0 keys when empty), that rank queries at the last "
          "bitmap position add the bit of that position, and that every receiver field Stat reads is replaced by every successful Unmarshal of every "
-         "compatible version. Does not decide KeyCnt = number of retained keys or monotonicity (runtime ranks)."),
+         "compatible version, and that the level walk locates nodes with the same layout polynomial as the query path. Does not decide KeyCnt = number of "
+         "retained keys or monotonicity (runtime ranks)."),
    design="4/C18"),
 
  "C08": dict(
@@ -135,7 +142,8 @@ CLAIMS = {
    text=("Decided for every record set and query: SlimIndex.Get/RangeGet return (\"\",false) exactly on the trie's not-found branch and otherwise "
          "the unmodified result of DataReader.Read(offset.(T), key) with key the query and offset the trie's value for it; routing Get->Get, "
          "RangeGet->RangeGet; for every trie the constructor can build, T is the type its encoder's Decode boxes, the element type of the offsets "
-         "handed to it and a type both lookups handle; no offset is narrowed without bound tests that fit the narrower type. Necessary for "
+         "handed to it and a type both lookups handle; no offset is narrowed without bound tests that fit the narrower type; every item's key and offset "
+         "reach the trie (the item loop appends unconditionally). Necessary for "
          "exactness because the trie alone has false positives; the trie's own answers for indexed keys are C01/C02."),
    design="4/C12"),
 
@@ -147,7 +155,8 @@ CLAIMS = {
          "guards, derived constants and the builder's (4,17)/(8,257) size pairs agree; the query-byte-to-label-index function has value ranges "
          "exactly {0}, [1,16], [1,256] per branch under wrap-around interval evaluation (all bytes 0x00-0xff addressable, no sign extension); presence "
          "bitmaps are sized by the last ordinal plus one in the same builder counters; the value-array width is decided per element; in-place "
-         "rewrites of node sizes touch only ordinals >= BigInnerCnt. Does not decide that ranks select the right child."),
+         "rewrites of node sizes touch only ordinals >= BigInnerCnt; every Encoder's Encode returns memory of its own (the builder keeps all results). "
+         "Does not decide that ranks select the right child."),
    design="4/C01"),
  "C10": dict(
    technique="CFG dominance/reachability guards (overrun, key index, empty trie incl. sentinel-correlated guards) + symbolic sibling agreement + typestate of conditionally assigned session fields",
@@ -157,7 +166,8 @@ CLAIMS = {
          "empty-trie sentinel); the lookup node decoder agrees with its sibling copies incl. the guard of the straddled word; Get/GetI* share one "
          "GetID, RangeGet/Search one descent, both descents update the cursor with identical terms; session fields the node decoders assign only "
          "for some nodes (bm, innerPrefix, leafPrefix) are assigned exactly when their discriminator says valid and read only under it, so a "
-         "reused session never leaks a previous node's value. No-panic in general needs data invariants "
+         "reused session never leaks a previous node's value, and the bit length of a stored prefix reads its marker byte; both descents compare the leaf "
+         "tail under the same section tests; no lookup, scan or build code ranges over key material by runes. No-panic in general needs data invariants "
          "and is not decided."),
    design="4/C10"),
  "C03": dict(
@@ -166,7 +176,8 @@ CLAIMS = {
          "and query: Complete forces both prefix kinds to be stored; every branch of the descent that depends on a comparison with the node's stored "
          "prefix tests a three-way result for (in)equality with 0 and has exactly one side from which no found answer is reachable (a mismatch cannot be "
          "ignored); after the descent a found answer is given only if no leaf tails are stored at all, or the key ended exactly at a leaf without a "
-         "tail, or the stored tail compared equal with the rest of the key; stored prefix and tail are read only under their validity discriminators. "
+         "tail, or the stored tail compared equal with the rest of the key; stored prefix and tail are read only under their validity discriminators; every "
+         "query byte value 0x00-0xff is addressable as a label; key material is never walked by runes. "
          "It does NOT decide that the comparisons are right for every byte string, nor anything about RangeGet/Search, ordering or neighbour "
          "bookkeeping (rank values and key bytes at run time) — most of the property's behaviour is outside this claim."),
    design="4/C03"),
@@ -185,7 +196,8 @@ CLAIMS = {
    text=("Decides the clause whose violation made String() panic on tries with table-compressed nodes: no path list flows into a bitmap "
          "parameter, (bitmap,size) pairs carry the size the words were cut with on every return, each bmtree.Decode gets that size; labels are "
          "rendered from a sorted slice; String on an empty trie returns first; the label decoder reads conditionally assigned session fields only under "
-         "their validity discriminator (the renderer decodes every node into one reused session). The rest of the rendering (each node once, child ids) is not decided."),
+         "their validity discriminator (the renderer decodes every node into one reused session); every field String() reads is replaced by every successful "
+         "Unmarshal. The rest of the rendering (each node once, child ids, label string order) is not decided."),
    design="4/C19"),
 }
 
